@@ -222,11 +222,42 @@ def run_step(step, instr, nets_cache):
     return obs
 
 
+def api_probe():
+    """What a user of the external API (ethosu.vela.api) sees after the scenario: the default architecture objects
+    (`architecture_features.default_arch_cache`) must be a function of the accelerator alone."""
+    from ethosu.vela import architecture_features as af, driver_actions
+    from ethosu.vela.api import NpuAccelerator
+
+    parts = []
+    for acc in af.Accelerator:
+        arch = af.create_default_arch(acc)
+        attrs = []
+        for k, v in sorted(vars(arch).items()):
+            if isinstance(v, (int, float, str, bool, type(None))) or (isinstance(v, (list, tuple)) and all(isinstance(x, (int, float, str)) for x in v)):
+                attrs.append(f"{k}={v!r}")
+            elif hasattr(v, "name") and hasattr(v, "value"):
+                attrs.append(f"{k}={v.name}")
+        parts.append(acc.name + ":" + ";".join(attrs))
+    for npu_acc in NpuAccelerator:
+        parts.append(npu_acc.name + ":" + driver_actions.npu_create_driver_payload([0x0001_0000, 0x0002_4000], npu_acc).hex())
+    text = "\n".join(parts)
+    return {"status": "ok", "diag": "", "size": len(text), "digest": hashlib.sha256(text.encode()).hexdigest(), "figures": None,
+            "debugdb": None, "stale_hits": [], "stale_addr": [], "greedy_ties": 0, "dupnames": False, "src_ops": [], "model": None, "tb": "",
+            "text": text}
+
+
 def run_scenario(scn):
     pipeline.load_vela()
     instr = Instr()
     nets_cache = {}
-    return [run_step(s, instr, nets_cache) for s in scn["steps"]]
+    obs = [run_step(s, instr, nets_cache) for s in scn["steps"]]
+    try:
+        obs.append(api_probe())
+    except BaseException as e:  # noqa: B902
+        obs.append({"status": "exception:" + type(e).__name__, "diag": str(e)[:200], "size": 0, "digest": "-", "figures": None,
+                    "debugdb": None, "stale_hits": [], "stale_addr": [], "greedy_ties": 0, "dupnames": False, "src_ops": [], "model": None,
+                    "tb": traceback.format_exc()[-600:], "text": ""})
+    return obs
 
 
 def _in_fresh_process(scn):
@@ -292,7 +323,8 @@ def _cli_job(job):
         return {"status": st, "diag": diag, "size": len(model) if model else 0,
                 "digest": hashlib.sha256(model).hexdigest() if model else "-", "figures": figures_of(csvt),
                 "debugdb": None, "stale_hits": [], "stale_addr": [], "greedy_ties": 0, "dupnames": detnets.has_duplicate_names(net),
-                "src_ops": [o.kind for o in net.ops], "model": None, "tb": r.stderr[-500:]}
+                "src_ops": [o.kind for o in net.ops], "model": model if detnets.has_duplicate_names(net) else None,
+                "tb": r.stderr[-500:]}
     finally:
         shutil.rmtree(d, ignore_errors=True)
 
@@ -400,7 +432,7 @@ def make_scenarios(rng, n, hardcoded):
                 seen.add(k)
                 s1 = dict(s, entry="main", reset=False)
                 alone.append({"id": len(scns) + len(alone), "shape": "alone", "steps": [s1]})
-    return alone + scns, pool
+    return [{"id": -1, "shape": "nothing", "steps": []}] + alone + scns, pool
 
 
 # ------------------------------------------------------------------------------------------------
@@ -530,9 +562,15 @@ def main():
     hardcoded, info = entry_options()
     if ck.replay_arg:
         rp = json.load(open(ck.replay_arg))["replay"]
-        scns = [{"id": 0, "shape": "alone", "steps": [dict(rp["step"], entry="main", reset=False, opts=rp["step"]["opts"])]},
-                dict(rp["scenario"], id=1)]
+        scns = [{"id": -1, "shape": "nothing", "steps": []}]
         cli_jobs = []
+        st = rp.get("step")
+        if st:
+            scns.append({"id": 0, "shape": "alone", "steps": [dict(st, entry="main", reset=False, keep_model=True)]})
+        if rp["scenario"]["shape"] == "cli":
+            cli_jobs = [(st["net"], st["opts"], st.get("hashseed", 0), common._ext_dir)]
+        else:
+            scns.append(dict(rp["scenario"], id=1))
     else:
         n = 2400 if ck.thorough else 420
         scns, pool = make_scenarios(ck.rng, n, hardcoded)
@@ -556,10 +594,12 @@ def main():
         classes.setdefault((tuple(spec), opt_key(opts, hardcoded)), []).append((obs, where))
 
     nsteps = 0
+    probes = []
     for sc, r in zip(scns, results):
         if "harness_exception" in r:
             raise common.InfraError("scenario worker failed:\n" + r["harness_exception"])
-        for j, (s, o) in enumerate(zip(sc["steps"], r["obs"])):
+        probes.append((r["obs"][-1], sc))
+        for j, (s, o) in enumerate(zip(sc["steps"], r["obs"][:-1])):
             nsteps += 1
             ck.count("entry_" + s["entry"])
             ck.count("status_" + o["status"].split(":")[0])
@@ -592,7 +632,22 @@ def main():
             if len(sel) >= 1:
                 lines.append("detclass " + " ".join(obs_token(m[0], what) for m in sel))
                 owners.append((key, what, sel))
-    verdicts = ck.model(lines, parallel=False)
+    # the API probe: one class over all scenarios, reference = an interpreter that compiled nothing
+    probes.sort(key=lambda p: len(p[1]["steps"]))
+    probe_line = "detclass " + " ".join(obs_token(p[0], "bytes") for p in probes)
+    verdicts = ck.model(lines + [probe_line], parallel=False)
+    pv = verdicts.pop()
+    if pv != "1":
+        ref = probes[0][0]
+        for o, sc in probes[1:]:
+            if obs_token(o, "bytes") != obs_token(ref, "bytes"):
+                diff = [(a, b) for a, b in zip(ref.get("text", "").split("\n"), o.get("text", "").split("\n")) if a != b][:2]
+                ck.violation("the external API (create_default_arch / npu_create_driver_payload) answers differently after the compilations "
+                             + "; ".join(f"{s['entry']}({s['net'][0]}#{s['net'][1]} {' '.join(s['opts'])})" for s in sc["steps"])
+                             + f" than in an interpreter that compiled nothing: {str(diff)[:600]}",
+                             {"scenario": {"shape": sc["shape"], "steps": sc["steps"]}, "compared": "api_probe", "step": None,
+                              "first_differences": diff, "lean_request": "detclass " + obs_token(ref, "bytes") + " " + obs_token(o, "bytes")})
+                break
 
     nontrivial = 0
     disagreeing = 0
